@@ -35,11 +35,19 @@ impl std::ops::Mul for &Primitive {
             Ok(result)
         }
 
+        /// `str::repeat` panics when the result cannot be represented: check first.
+        fn repeat_str(original: &str, times: usize) -> Result<String> {
+            match original.len().checked_mul(times) {
+                Some(new_size) if new_size <= isize::MAX as usize => Ok(original.repeat(times)),
+                _ => bail!("new size is too large"),
+            }
+        }
+
         Ok(match (self, rhs) {
-            (Str(x), Int(y)) => string!(x.repeat((*y).try_into()?)),
-            (Str(x), BigInt(y)) => string!(x.repeat((*y).try_into()?)),
-            (Int(y), Str(x)) => string!(x.repeat((*y).try_into()?)),
-            (BigInt(y), Str(x)) => string!(x.repeat((*y).try_into()?)),
+            (Str(x), Int(y)) => string!(repeat_str(x, (*y).try_into()?)?),
+            (Str(x), BigInt(y)) => string!(repeat_str(x, (*y).try_into()?)?),
+            (Int(y), Str(x)) => string!(repeat_str(x, (*y).try_into()?)?),
+            (BigInt(y), Str(x)) => string!(repeat_str(x, (*y).try_into()?)?),
             (Vector(ref x), Int(y)) => {
                 vector!(raw repeat_vec(x.0.borrow().as_ref(), (*y).try_into()?)?)
             }
